@@ -239,6 +239,63 @@ fn ref_section(name: &str, lines: &[String]) -> Option<String> {
     })
 }
 
+/// the same records inside a file: `[Section]` + the lines, as UTF-8 / UTF-8 with BOM / UTF-16LE / UTF-16BE, with and without
+/// the version line, read with the section's own decoder — every recognised record must set the same field as when the
+/// parser is called on the line directly. Only for lines the framing hands on unchanged (no blank / comment / header lines,
+/// no trailing white space, no line breaks).
+fn file_form(name: &str, lines: &[String], want: &str) -> Option<String> {
+    let neutral = |l: &String| {
+        !l.is_empty()
+            && l.trim_end() == l.as_str()
+            && !l.trim_start().starts_with("//")
+            && !l.contains(['\n', '\r'])
+            && rosu_map::section::Section::try_from_line(l).is_none()
+    };
+    if !lines.iter().all(neutral) {
+        return None;
+    }
+    let header = match name {
+        "editor" => "[Editor]",
+        "metadata" => "[Metadata]",
+        "difficulty" => "[Difficulty]",
+        "events" => "[Events]",
+        "colors" => "[Colours]",
+        _ => return None,
+    };
+    // `has_approach_rate` is parser state, not part of the decoded value
+    let want = want.split(" har=").next().unwrap_or(want);
+    for with_version in [true, false] {
+        let mut text = String::new();
+        if with_version {
+            text.push_str("osu file format v14\n\n");
+        }
+        text.push_str(header);
+        text.push('\n');
+        for l in lines {
+            text.push_str(l);
+            text.push('\n');
+        }
+        for (enc, bytes) in crate::reader::four_encodings(&text) {
+            let got = match name {
+                "editor" => rosu_map::from_bytes::<Editor>(&bytes).ok().map(|e| fmt_editor(&e)),
+                "metadata" => rosu_map::from_bytes::<Metadata>(&bytes).ok().map(|e| fmt_metadata(&e)),
+                "difficulty" => rosu_map::from_bytes::<Difficulty>(&bytes).ok().map(|e| fmt_difficulty(&e, false)),
+                "events" => rosu_map::from_bytes::<Events>(&bytes).ok().map(|e| fmt_events(&e)),
+                _ => rosu_map::from_bytes::<Colors>(&bytes).ok().map(|e| fmt_colors(&e)),
+            };
+            let got = got.unwrap_or_else(|| "decode-error".to_owned());
+            let got = got.split(" har=").next().unwrap_or(&got).to_owned();
+            if got != want {
+                return Some(format!(
+                    "the records inside a file ({enc}, {} version line) decode to [{got}], the section parser on the same lines gives [{want}]",
+                    if with_version { "with" } else { "without" }
+                ));
+            }
+        }
+    }
+    None
+}
+
 pub fn dispatch_impl(toks: &[&str]) -> Option<String> {
     match toks {
         ["sec", name, hexes @ ..] => run_section(name, &lines_of(hexes)),
@@ -253,7 +310,13 @@ pub fn dispatch_prop(toks: &[&str]) -> Option<String> {
             let got = run_section(name, &lines)?;
             let got_state = got.split_once(' ').map_or("", |x| x.1).to_owned();
             let want = ref_section(name, &lines)?;
-            Some(if got_state == want { "OK".into() } else { format!("FAIL got[{got_state}] want[{want}]") })
+            if got_state != want {
+                return Some(format!("FAIL got[{got_state}] want[{want}]"));
+            }
+            Some(match file_form(name, &lines, &got_state) {
+                Some(d) => format!("FAIL {d}"),
+                None => "OK".into(),
+            })
         }
         _ => None,
     }
